@@ -417,16 +417,44 @@ SPECS.update({"C16": c16, "C06": c06})
 
 
 # ------------------------------------------------------------------------------ bgpmon-based properties
-BGP_ASSUME = ["OpenSSL's EVP_DigestSign/EVP_DigestVerify and SHA-256 are the trusted base of the oracle (the library itself uses the low-level ECDSA_* interface)",
+BGP_ASSUME = ["OpenSSL's EVP_DigestSign/EVP_DigestVerify and SHA-256 are the trusted base of the oracle (the library itself uses the low-level ECDSA_* interface); a sample is cross-checked by a pure-Python P-256/SHA-256 verifier",
               "the oracle's RFC 8205 section 4.2 octet-sequence builder works on plain arrays and shares no code with rtrlib's stream / alignment code",
               "ASan/UBSan blind spots; libcrypto is not instrumented"]
 
 
+def _p256_post(prop):
+    """second opinion: re-judge the sampled (octet sequence, SPKI, signature, EVP verdict) tuples in pure Python"""
+    def post(bdir, res, tier, seed):
+        import glob
+        from . import p256
+        n = agree = 0
+        limit = 60 if tier == "quick" else 600
+        for f in sorted(glob.glob(os.path.join(bdir, "out", "*.p256"))):
+            for line in open(f):
+                if n >= limit:
+                    break
+                parts = line.split()
+                if len(parts) != 4:
+                    continue
+                msg, spki, sig = (bytes.fromhex(x) for x in parts[:3])
+                evp = parts[3] == "1"
+                mine = p256.verify(msg, spki, sig)
+                n += 1
+                if mine == evp:
+                    agree += 1
+                    res.add_cnt("p256/" + ("accepted_by_both" if mine else "rejected_by_both"), 1)
+                else:
+                    res.viol.append(dict(prop=prop, key="%s:second-opinion-disagrees:evp-%d-python-%d" % (prop, evp, mine), case=-1, run="p256", seed=seed,
+                                         msg="EVP says %s, the pure-Python P-256 verifier says %s for signature %s" % (evp, mine, parts[2][:40])))
+        res.add_cnt("p256/tuples_rejudged_in_pure_python", n)
+    return post
+
+
 def c11():
     return dict(
-        id="C11", level="exploration", engine="bgpmon",
+        id="C11", level="exploration", engine="bgpmon", post=_p256_post("C11"),
         builds=[dict(name="bgpmon", config="asan", harness=["bgpmon.c"], wraps=["lrtr_dbg"])],
-        runs=[dict(name="validate", bin="bgpmon", config="asan", mode="validate", cases=T(9000, 120000), args=["hops=8", "flips=36"], chunks=48),
+        runs=[dict(name="validate", bin="bgpmon", config="asan", mode="validate", cases=T(9000, 120000), args=["hops=8", "flips=36", "p256=3"], chunks=48),
               dict(name="validate-long", bin="bgpmon", config="asan", mode="validate", cases=T(480, 8000), args=["hops=32", "flips=24"], chunks=16)],
         floors={"c11/validations": T(150000, 2000000), "c11/expected/1": T(4000, 60000), "c11/bitflip/signature": T(9000, 120000),
                 "c11/key_table/right-key-under-other-AS-only": T(1200, 18000), "c11/unequal_segment_counts": T(600, 9000)},
@@ -439,16 +467,18 @@ def c11():
               "validation: expected VALID iff for every hop some key registered for (SKI, AS of that hop's Secure_Path Segment) "
               "verifies the signature under EVP over the oracle's sequence; specific codes for a SKI absent from the table, unsupported "
               "suite, unsupported AFI, unequal segment counts; every other case must merely differ from VALID. Calls go through "
-              "rtr_bgpsec_validate_as_path and rtr_mgr_bgpsec_validate_as_path. Distinct by hash of the signed path and key-table variant."),
+              "rtr_bgpsec_validate_as_path and rtr_mgr_bgpsec_validate_as_path. A sample of the tuples EVP judged (60 quick / 600 thorough, "
+              "accepted and rejected) is re-judged by a pure-Python P-256 + SHA-256 verifier (lib/p256.py, strict DER) and must agree. "
+              "Distinct by hash of the signed path and key-table variant."),
         assumptions=BGP_ASSUME,
     )
 
 
 def c12():
     return dict(
-        id="C12", level="exploration", engine="bgpmon",
+        id="C12", level="exploration", engine="bgpmon", post=_p256_post("C12"),
         builds=[dict(name="bgpmon", config="asan", harness=["bgpmon.c"], wraps=["lrtr_dbg"])],
-        runs=[dict(name="sign", bin="bgpmon", config="asan", mode="sign", cases=T(16000, 200000), args=["hops=8"], chunks=48),
+        runs=[dict(name="sign", bin="bgpmon", config="asan", mode="sign", cases=T(16000, 200000), args=["hops=8", "p256=3"], chunks=48),
               dict(name="sign-long", bin="bgpmon", config="asan", mode="sign", cases=T(400, 6000), args=["hops=32"], chunks=16)],
         floors={"c12/signatures_verified_independently": T(60000, 800000), "c12/assembled_paths_validated": T(15000, 200000), "c12/negative_cases": T(15000, 200000)},
         rule=("For random paths (1..8 and 1..32 hops, every NLRI length of both families, arbitrary field values, keys drawn from 24 "
@@ -457,7 +487,8 @@ def c12():
               "public key with EVP_DigestVerify over the ORACLE's RFC 8205 4.2 octet sequence; the path assembled from the generated "
               "signatures must validate as VALID both by the library and by the oracle. Negative cases per path: random, truncated "
               "and wrong-curve (P-384) private keys -> LOAD_PRIV_KEY_ERROR; unsupported suite / AFI and path_len != sigs_len + 1 -> "
-              "their specific codes with *new_signature left NULL. Distinct by hash of the path."),
+              "their specific codes with *new_signature left NULL; every negative call is made twice and must answer the same. A sample "
+              "of the EVP verdicts is re-judged by the pure-Python verifier. Distinct by hash of the path."),
         assumptions=BGP_ASSUME,
     )
 
